@@ -61,7 +61,7 @@ CHECKS.update({
             'and bridgepoint directory / zip containers; the same rows created through new()/clone() must give the same links.',
             'Trusted: harness key-join and SQL writer. The API-equivalence clause on phrase-bearing associations is a '
             'recorded known finding (MetaClass.new direction bug pinned by the test-suite).', 'DESIGN.md 3 C03'),
-    'C12': ('Hypothesis text / token soup / single-edit mutants / input histories + pumped inputs; exception-class, loader-snapshot, differential-build and alarm oracles',
+    'C12': ('Hypothesis text / token soup / single-edit mutants / input histories + pumped inputs + coverage-guided fuzzing (atheris/libFuzzer, token-level mutator) of ModelLoader.input/build; exception-class, loader-snapshot, differential-build and alarm oracles',
             'Every input() must return or raise ParsingException within 10 s and leave loader.statements unchanged when it '
             'raises; every build must return or raise a ParsingException/MetaException and equal the build of a fresh '
             'loader fed only the accepted inputs. Bounded exploration.',
@@ -89,7 +89,7 @@ CHECKS.update({
             'compared; typed programs are interpreted under a case map and compared with the reference evaluator.',
             'Trusted: as C04/C07. The prebuild clause is exercised by the prebuild part once the C05/C06 machinery is in place.',
             'DESIGN.md 3 C08'),
-    'C13': ('Hypothesis text / token soup / mutants + pumped inputs under an alarm (totality) with a position self-consistency predicate on every accepted text; printer-computed spans vs recorded positions for bodies with drawn layout',
+    'C13': ('Hypothesis text / token soup / mutants + pumped inputs + coverage-guided fuzzing (atheris/libFuzzer, token-level mutator) of oal.parse under an alarm (totality) with a position self-consistency predicate on every accepted text; printer-computed spans vs recorded positions for bodies with drawn layout',
             'parse must return a tree or raise ParseException within 10 s on every generated input, and in every accepted text each statement / '
             'expression node must name, by its recorded line and column, exactly the stretch of text it records, inside its enclosing node; for generated bodies every '
             'statement and expression node must carry exactly the start/end line and column and source substring that the '
@@ -181,7 +181,7 @@ def main():
         'engines': [{
             'name': 'pbt', 'path': '/verif/pbt',
             'serves_properties': [c['property_id'] for c in checks],
-            'kind_free_text': 'Hypothesis 6.168 property-based tests, stateful histories and exhaustive '
+            'kind_free_text': 'Hypothesis 6.168 property-based tests, stateful histories, coverage-guided fuzzing (atheris 3.1, C12/C13) and exhaustive '
                               'small-scope enumeration against harness-side reference models',
         }],
         'checks': checks,
